@@ -354,6 +354,16 @@ def continuation_rule(rep, u, caller="r_buf_data_get", gather="iovec_aggregate_e
             if rem is None:
                 rep.undecided("R-CONT", fc, inst, desc, "the remainder the helper reports is not computable")
                 continue
+            # accounting: what the caller reports as delivered (request - remainder) is the size of the blocks taken
+            taken = 0 if ret == 0 else sum(blocks[:ev[-1][1].get("i") or 1]) - off
+            n += 1
+            desc_a = ("%s: request minus reported remainder equals the bytes of the blocks handed out [class %s: blocks %s, request %d, offset %d, "
+                      "%d slot(s)]" % (gather, cname, blocks, req, off, slots))
+            if req - rem == taken:
+                rep.proved("R-SPEC", fg, "accounting:%s" % cname, desc_a, "%d bytes" % taken)
+            else:
+                rep.violated("R-SPEC", fg, "accounting:%s" % cname, desc_a, "%d region(s) holding %d bytes are returned but the remainder %d makes the caller "
+                             "report %d bytes as delivered" % (ret, taken, rem, req - rem))
             # does the caller reach the second gather, and with what?
             bind = {reqk: req, offk: off, slotk: slots, remv: rem}
             if retv:
